@@ -75,6 +75,10 @@ impl<Out: ExchangeData> Batcher<Out> {
             BatchMode::Adaptive(n, max_delay) => {
                 self.buffer.push(message);
                 let timeout_elapsed = self.last_send.elapsed() > max_delay.into();
+                #[cfg(feature = "verif")]
+                let timeout_elapsed = crate::verif::batcher_elapsed()
+                    .map(|elapsed| elapsed > max_delay)
+                    .unwrap_or(timeout_elapsed);
                 if self.buffer.len() >= n.get() || timeout_elapsed {
                     self.flush()
                 }
